@@ -167,7 +167,7 @@ static void run_witness(uint64_t idx, pv_rng* rng) {
     unsigned d[16]; memcpy(d, c, sizeof d); d[1] ^= coin;
     long want_internal = 0; for (int p = 0; p < 16; ++p) want_internal += len_nfkd[l][d[p]];
     want_internal += 15 * (long)strlen(L->sep);
-    polyseed_data* s = pv_seed_from_model(&m);
+    polyseed_data* s = pv_seed_any_path(rng, &m, coin);
     if (!s) { pv_violation("C17/witness-load", "%s: cannot load witness %s", L->name_en, pv_mseed_str(&m)); return; }
     char* out = malloc(POLYSEED_STR_SIZE);       /* exactly the public buffer: an overrun hits the ASan red zone */
     pv_cur.note = "witness-encode";
